@@ -266,7 +266,7 @@ def iset(xs):
 PROFILES = {
     "all":    (ALLK, [0, 2, 9], [0, 3], [1], [0, 1, 2], 1, 4, 4, 4),
     "loops":  (["Mark", "Seq", "If", "T", "While", "Do", "For", "Break", "Continue"], [2], [0, 3], [1], [1], 1, 5, 6, 4),
-    "switch": (["Mark", "Seq", "Switch", "Case", "CaseR", "Default", "Break"], [2], [0], [0, 1, 2, 3], [0, 1, 2, 3], 1, 5, 6, 3),
+    "switch": (["Mark", "Seq", "Switch", "Case", "CaseR", "Default", "Break"], [2], [0], [0, 1, 2, 3], [0, 1, 2, 3], 1, 5, 6, 4),
     "swloop": (["Mark", "Seq", "Switch", "Case", "Default", "Break", "Continue", "While", "For"], [2], [0], [1], [1, 2], 1, 5, 6, 4),
     "expr":   (["Expr", "T", "F", "Not", "And", "Or", "Cond", "Comma", "SE", "Mark", "If"], [2], [0], [1], [1], 1, 5, 6, 5),
     "goto":   (["Mark", "Seq", "If", "CntLt", "Goto", "GotoStar", "Label", "While", "Break"], [2], [0], [1], [1], 2, 5, 6, 4),
